@@ -34,6 +34,9 @@ MUTANTS = [
     {'name': 'multivariate-dispatch-ignores-type', 'rule': 'D5.dispatch', 'file': 'multivariate/base.py', 'old': "        multivariate_class = get_instance(params['type'])\n        return multivariate_class.from_dict(params)", 'new': "        from copulas.multivariate.gaussian import GaussianMultivariate\n        return GaussianMultivariate.from_dict(params)"},
     {'name': 'gaussian-rebuilt-stays-unfitted', 'rule': 'D4.complete', 'file': G, 'old': "        instance.fitted = True\n\n        return instance", 'new': "        return instance"},
     {'name': 'vine-rebuilt-marked-unfitted', 'rule': 'D4.complete', 'file': V, 'old': "            instance.fitted = fitted\n", 'new': "            instance.fitted = False\n"},
+    {'name': 'tree-edges-sorted-on-read', 'rule': 'D3.order', 'file': T, 'old': "instance.edges = [Edge.from_dict(edge) for edge in tree_dict['edges']]", 'new': "instance.edges = Edge.sort_edge([Edge.from_dict(edge) for edge in tree_dict['edges']])"},
+    {'name': 'tree-edges-reversed-on-read', 'rule': 'D3.order', 'file': T, 'old': "instance.edges = [Edge.from_dict(edge) for edge in tree_dict['edges']]", 'new': "instance.edges = [Edge.from_dict(edge) for edge in reversed(tree_dict['edges'])]"},
+    {'name': 'gaussian-columns-sorted-on-read', 'rule': 'D3.order', 'file': G, 'old': "        columns = copula_dict['columns']\n", 'new': "        columns = sorted(copula_dict['columns'])\n"},
 ]
 REWRITES = [
     {'name': 'vine-reorder-restores', 'file': V,
